@@ -68,6 +68,11 @@ CLAIMED = {
    technique="deterministic simulation: seeded fake-time scheduler inside testing/synctest under the race detector",
    note="Trusted base: Go's race detector and testing/synctest (go1.26.8), the scheduler in sim/e4/sched.go. Interleavings at the granularity of yield points, I/O calls and timer firings. In the smart-rebalancer workload background goroutines do not sleep at yield points (a caller blocked on the lifecycle mutex is not durably blocked in synctest), so interleavings inside the monitor's evaluation are explored only through timer placement.",
    ref="DESIGN.md section 4 C18"),
+ "C07": dict(level="exploration", engine="E2-fault-simulator",
+   text="Storage-corruption fault injection: per workload (bundled reference file or file written by a simulated history) seeded, decoder-directed alterations of the stored bytes (boundary values over positions in every metadata structure, self-referential addresses, random multi-byte mutations, truncations) are applied one at a time and everything reachable is read through the public API, in crash-tolerant worker processes under a 4 GiB address-space limit and a hang watchdog; a process death is attributed to the announced trace+mutation (allocation/overflow site taken from the dying goroutine's stack) and reported only after two fresh-process replays.",
+   technique="deterministic simulation with stored-byte fault injection (seeded, decoder-directed), isolated crash-tolerant workers",
+   note="Trusted base: the independent decoder for locating metadata structures (placement only), the resource oracle constants (1e5+64*size reads, 256 MiB+1100*size bytes), Go toolchain. Sampling, not proof; inputs > 4 MiB not explored.",
+   ref="DESIGN.md section 4 C07"),
  "C01": dict(level="exploration", engine="E1-history-simulator",
    text="Seeded deterministic simulation of write/restart/read histories (all dataset types x ranks x layouts x superblock versions x data classes) against an executable reference model; every failing run is minimised and replayed twice in fresh processes before it is reported.",
    technique="deterministic simulation: seeded write/restart/read histories vs reference model over a simulated disk",
